@@ -1,4 +1,3 @@
-from functools import lru_cache
 from pathlib import Path
 
 import click
@@ -9,14 +8,31 @@ from ..filtering import filter_names
 
 
 def touch_workflow(endpoints, graph, spec_hashes):
-    @lru_cache(maxsize=None)
-    def _visit(target):
-        for dep in graph.dependencies[target]:
-            _visit(dep)
+    visited = set()
 
+    def _touch(target):
         spec_hashes.update(target)
         for path in target.flattened_outputs():
             Path(path).touch(exist_ok=True)
+
+    def _visit(root):
+        # Post-order traversal with an explicit stack (dependencies are touched
+        # before the target); recursion overflows on long dependency chains.
+        stack = [root]
+        while stack:
+            target = stack[-1]
+            if target in visited:
+                stack.pop()
+                continue
+            pending = [
+                dep for dep in graph.dependencies[target] if dep not in visited
+            ]
+            if pending:
+                stack.extend(pending)
+                continue
+            visited.add(target)
+            stack.pop()
+            _touch(target)
 
     for target in endpoints:
         _visit(target)
